@@ -66,11 +66,13 @@ def readUGo : Bytes → Nat → R (Nat × Nat)
     if b / 128 % 2 = 0 then .ok (acc', 1)    -- this & 0x80 == 0
     else bump 1 (readUGo rest acc')
 
-/-- `MBXML.read_uintvar(data, idx)` = (value, new idx) -/
-def readU (data : Bytes) (idx : Nat) : R (Nat × Nat) :=
-  match readUGo (data.drop idx) 0 with
+/-- from "octets consumed" to "new index" -/
+def shift (idx : Nat) : R (Nat × Nat) → R (Nat × Nat)
   | .ok (v, n) => .ok (v, idx + n)
   | .error e => .error e
+
+/-- `MBXML.read_uintvar(data, idx)` = (value, new idx) -/
+def readU (data : Bytes) (idx : Nat) : R (Nat × Nat) := shift idx (readUGo (data.drop idx) 0)
 
 /-! ## write_uintvar -/
 
@@ -116,6 +118,11 @@ def writeUInt (v : Int) : R Bytes :=
 /-- `sintvar * sign` -/
 def applySign (neg : Bool) (m : Nat) : Int := if neg then -(m : Int) else (m : Int)
 
+/-- the rest of `read_sintvar` after the first octet at `idx`: value with sign, new index, sign -/
+def readSRest (neg : Bool) (idx : Nat) : R (Nat × Nat) → R (Int × Nat × Bool)
+  | .ok (v, n) => .ok (applySign neg v, idx + 1 + n, neg)
+  | .error e => .error e
+
 /-- `MBXML.read_sintvar(data, idx)` = (value, new idx, sign is −1) -/
 def readS (data : Bytes) (idx : Nat) : R (Int × Nat × Bool) :=
   match data.drop idx with
@@ -124,22 +131,22 @@ def readS (data : Bytes) (idx : Nat) : R (Int × Nat × Bool) :=
     let neg := b / 64 % 2 = 1                 -- this & 0x40 > 0
     let acc := b % 64                         -- (0 << 7) + (this & 0x3F)
     if b / 128 % 2 = 0 then .ok (applySign neg acc, idx + 1, neg)
-    else match readUGo rest acc with
-      | .ok (v, n) => .ok (applySign neg v, idx + 1 + n, neg)
-      | .error e => .error e
+    else readSRest neg idx (readUGo rest acc)
+
+/-- `if sintvar[0] & 0x40: sintvar = b"\x80" + sintvar` -/
+def signRoom : Bytes → Bytes
+  | [] => []
+  | b :: t => if b / 64 % 2 = 1 then 128 :: b :: t else b :: t
+
+/-- `bytes([sintvar[0] | 0x40]) + sintvar[1:]` when the sign is to be set -/
+def setSign : Bool → Bytes → Bytes
+  | false, s => s
+  | true, [] => []
+  | true, b :: t => Nat.lor b 64 :: t
 
 /-- the octets of `write_sintvar` for magnitude `m` and sign flag `neg` (no range assertion):
 `write_uintvar(m)`, a further leading septet when bit 6 of the first octet is taken, the sign -/
-def writeSRaw (m : Nat) (neg : Bool) : Bytes :=
-  let s := writeURaw m
-  let s := match s with
-    | [] => s
-    | b :: _ => if b / 64 % 2 = 1 then 128 :: s else s       -- if sintvar[0] & 0x40: b"\x80" + sintvar
-  if neg then
-    match s with
-    | [] => []
-    | b :: t => Nat.lor b 64 :: t                             -- bytes([sintvar[0] | 0x40]) + sintvar[1:]
-  else s
+def writeSRaw (m : Nat) (neg : Bool) : Bytes := setSign neg (signRoom (writeURaw m))
 
 /-- `MBXML.write_sintvar(value, negative_zero)` -/
 def writeS (v : Int) (negZero : Bool := false) : R Bytes :=
@@ -153,11 +160,11 @@ def fracSeptets (d : Nat) : Nat → List Nat
   | 0 => []
   | p + 1 => (d / 128 ^ p % 128) :: fracSeptets d p
 
-/-- `while len(septets) > 1 and septets[-1] == 0: septets.pop()` -/
-def stripTrailing (l : List Nat) : List Nat :=
-  match l.reverse.dropWhile (· == 0) with
-  | [] => l.take 1
-  | r => r.reverse
+/-- `while len(septets) > 1 and septets[-1] == 0: septets.pop()`: when everything after the head is
+zero the loop stops at the head (length 1), otherwise it never reaches the head -/
+def stripTrailing : List Nat → List Nat
+  | [] => []
+  | x :: t => if t.all (· == 0) then [x] else x :: stripTrailing t
 
 /-- `bytes([septet | 0x80 for septet in septets[:-1]] + septets[-1:])` -/
 def flagAllButLast : List Nat → Bytes
